@@ -88,7 +88,8 @@ Definition postprocess_varint (t : ptype) (v : Z) : pv :=
   else if ptype_eqb t TInt64 then PInt (sign_recover 64 v)
   else if tmem t [TSInt32; TSInt64] then PInt (unzigzag v)
   else if ptype_eqb t TBool then PBool (bool_of_varint v)
-  else PInt v.                                   (* enum: cls.try_value(v) is the int v; uint32/uint64 *)
+  else if ptype_eqb t TEnum then PInt (sign_recover 32 v)   (* truncated to int32, then cls.try_value *)
+  else PInt v.                                   (* uint32 / uint64 *)
 
 Definition hint_elem (h : hint) : pyty :=
   match h with HPlain t | HOptional t | HList t => t | HDict _ v => v end.
